@@ -145,6 +145,9 @@ pub enum Alter {
 	ReplaceKey { typ: u8, key: u8 },
 	/// replace a public key by its negation (same x coordinate, other parity byte)
 	NegateKey { typ: u8 },
+	/// keep only some records: 0 = only the signature-range records, 1 = the signature-range records and the
+	/// records selected by `mask` (bit i = i-th record), 2 = only the records selected by `mask`
+	Keep { mode: u8, mask: u32 },
 }
 
 #[derive(Clone, Debug, Serialize, Deserialize)]
@@ -249,6 +252,7 @@ fn alter() -> impl Strategy<Value = Alter> + Clone {
 		// metadata (4), description (10), issuer (18), payer note (89), payer metadata (0)
 		3 => (prop_oneof![Just(4u8), Just(10), Just(18), Just(89), Just(0)], pvec(any::<u8>(), 0..50)).prop_map(|(typ, v)| Alter::SetBytes { typ, v }),
 		2 => any::<u16>().prop_map(|rec| Alter::Remove { rec }),
+		2 => (0u8..3, prop_oneof![Just(0u32), Just(1u32), any::<u32>()]).prop_map(|(mode, mask)| Alter::Keep { mode, mask }),
 		1 => any::<u16>().prop_map(|rec| Alter::Dup { rec }),
 		1 => any::<u16>().prop_map(|rec| Alter::Swap { rec }),
 		3 => (
@@ -663,6 +667,23 @@ fn apply_alter(recs: &[rc::Tlv], a: &Alter) -> Option<Vec<rc::Tlv>> {
 		Alter::Remove { rec } => {
 			out.remove(pick(*rec, out.len()));
 		},
+		Alter::Keep { mode, mask } => {
+			let n = out.len();
+			let mut i = 0;
+			out.retain(|r| {
+				let sel = mask & (1 << (i % 32)) != 0;
+				i += 1;
+				let sig = (240..=1000).contains(&r.typ);
+				match mode {
+					0 => sig,
+					1 => sig || sel,
+					_ => sel,
+				}
+			});
+			if out.len() == n {
+				return None;
+			}
+		},
 		Alter::Dup { rec } => {
 			let i = pick(*rec, out.len());
 			let r = out[i].clone();
@@ -711,6 +732,7 @@ fn alter_label(a: &Alter) -> String {
 		Alter::SetU64 { typ, .. } => format!("set-u64({})", typ),
 		Alter::SetBytes { typ, .. } => format!("set-bytes({})", typ),
 		Alter::Remove { .. } => "remove".into(),
+		Alter::Keep { mode, .. } => format!("keep-subset({})", match mode { 0 => "signature records only", 1 => "signature records and some others", _ => "some records" }),
 		Alter::Dup { .. } => "dup".into(),
 		Alter::Swap { .. } => "swap".into(),
 		Alter::Insert { typ, .. } => format!(
